@@ -691,6 +691,7 @@ class DictModel:
 def _z3_variant(smt, budget, seed, arith, q, tag):
     import z3 as Z
     try:
+        os.setpgrp()
         ctx = Z.Context()
         s2 = Z.Solver(ctx=ctx)
         s2.set('timeout', int(budget * 1000))
@@ -725,6 +726,7 @@ def _cvc5_variant(smt, budget, q, tag):
     """cvc5 1.0 on the same SMT-LIB text; only an `unsat` answer is used (no model parsing)"""
     import tempfile
     try:
+        os.setpgrp()          # so that killing this worker's group also kills the cvc5 child
         with tempfile.NamedTemporaryFile('w', suffix='.smt2', delete=False, dir=CACHE) as fh:
             fh.write('(set-logic ALL)\n' + smt)
             path = fh.name
@@ -738,6 +740,17 @@ def _cvc5_variant(smt, budget, q, tag):
             q.put((tag, 'unknown', None))
     except Exception:
         q.put((tag, 'unknown', None))
+
+
+def _kill_group(p):
+    import signal
+    try:
+        os.killpg(p.pid, signal.SIGKILL)
+    except Exception:
+        try:
+            p.kill()
+        except Exception:
+            pass
 
 
 VARIANTS = [('z3', 0, None), ('z3', 11, 2), ('cvc5', None, None), ('z3', 5, 6)]
@@ -775,10 +788,7 @@ def solve_many(smts, budget):
     def kill_query(i):
         for tag in [t for t in running if t[0] == i]:
             p, _ = running.pop(tag)
-            try:
-                p.kill()
-            except Exception:
-                pass
+            _kill_group(p)
     while (pending or running) and any(r is None for r in result):
         while pending and len(running) < maxproc:
             i, v = pending.pop(0)
@@ -793,10 +803,7 @@ def solve_many(smts, budget):
                 p, t0 = running[tag]
                 if not p.is_alive() or now - t0 > budget + 30:
                     running.pop(tag)
-                    try:
-                        p.kill()
-                    except Exception:
-                        pass
+                    _kill_group(p)
                     i = tag[0]
                     unknowns[i] += 1
                     if result[i] is None and unknowns[i] >= nvar:
@@ -816,10 +823,15 @@ def solve_many(smts, budget):
             if unknowns[i] >= nvar:
                 result[i] = ('unknown', None)
     for tag in list(running):
-        try:
-            running[tag][0].kill()
-        except Exception:
-            pass
+        _kill_group(running[tag][0])
+    # stale temp files of killed cvc5 workers
+    for fn in os.listdir(CACHE):
+        if fn.startswith('tmp') and fn.endswith('.smt2'):
+            try:
+                if time.time() - os.path.getmtime(os.path.join(CACHE, fn)) > 3600:
+                    os.unlink(os.path.join(CACHE, fn))
+            except OSError:
+                pass
     return [r if r is not None else ('unknown', None) for r in result]
 
 
